@@ -391,7 +391,43 @@ pub fn raw_strategy() -> impl Strategy<Value = RawCase> {
                 data,
             }
         });
-    prop_oneof![5 => free, 1 => split_char]
+    // relations between neighbouring fields: the same bytes in two length-prefixed fields of different kinds (raw data is
+    // never validated, a string always is), and a 16-bit integer in front of a string / raw field whose value is the
+    // number of bytes that follow while the field's own length prefix is missing (the payload is then too short)
+    let content = prop_oneof![vec(any::<u8>(), 1..8), vec(prop::sample::select(vec![0x61u8, 0xC3, 0x28, 0xA9, 0xFF, 0x00, 0xE2, 0x82]), 1..8)];
+    let dyn_kind = || prop::sample::select(vec![RKind::Raw, RKind::Str]);
+    let twins = (dyn_kind(), dyn_kind(), content.clone(), vec(prop::sample::select(vec![RKind::Uint(8), RKind::Bool, RKind::Uint(16)]), 0..3), any::<bool>(), g::scod()).prop_map(|(k1, k2, c, between, big_endian, scod)| {
+        let p16 = |d: &mut Vec<u8>, v: u16| d.extend_from_slice(&if big_endian { v.to_be_bytes() } else { v.to_le_bytes() });
+        let plain = |kind| RType { kind, vari: false, trai: false, scod };
+        let mut types = vec![plain(k1)];
+        let mut data = vec![];
+        p16(&mut data, c.len() as u16);
+        data.extend_from_slice(&c);
+        for k in between {
+            types.push(plain(k));
+            data.extend(std::iter::repeat(1u8).take(if k == RKind::Uint(16) { 2 } else { 1 }));
+        }
+        types.push(plain(k2));
+        p16(&mut data, c.len() as u16);
+        data.extend_from_slice(&c);
+        RawCase { types, big_endian, data }
+    });
+    let missing_prefix = (dyn_kind(), content, any::<bool>(), prop::bool::weighted(0.3)).prop_map(|(k, c, big_endian, lead)| {
+        let p16 = |d: &mut Vec<u8>, v: u16| d.extend_from_slice(&if big_endian { v.to_be_bytes() } else { v.to_le_bytes() });
+        let plain = |kind| RType { kind, vari: false, trai: false, scod: 0 };
+        let mut types = vec![];
+        let mut data = vec![];
+        if lead {
+            types.push(plain(RKind::Uint(8)));
+            data.push(9);
+        }
+        types.push(plain(RKind::Uint(16)));
+        p16(&mut data, c.len() as u16);
+        types.push(plain(k));
+        data.extend_from_slice(&c);
+        RawCase { types, big_endian, data }
+    });
+    prop_oneof![10 => free, 2 => split_char, 1 => twins, 1 => missing_prefix]
 }
 
 /// Block b of the trailing-length sweep: byte order x {string, raw} x closing-field length 0..=5 x 3 list prefixes;
